@@ -816,15 +816,22 @@ def hangul_decomp_rule(ck, fns, callers, report, cp_name="cp", dest_name="dest")
     checked at every call site by interval reachability.  Nothing is evaluated on concrete syllables."""
     from ..lin import Lin, entails
     found = None
+    CP = SIDX = None
     for fn in fns:
-        if cp_name in fn.pnames and dest_name in fn.pnames and any(i["op"] in ("udiv", "urem") for i in fn.insts()) and any(
-                i["op"] == "sub" and i["ops"][0].get("id") == fn.pnames[cp_name]["id"] and i["ops"][1].get("v") == H_SBASE for i in fn.insts()):
-            found = fn
+        if dest_name not in fn.pnames or not any(i["op"] in ("udiv", "urem") and i["ops"][1].get("v") in (H_TCOUNT, H_VCOUNT * H_TCOUNT) for i in fn.insts()):
+            continue
+        if cp_name in fn.pnames and any(i["op"] == "sub" and i["ops"][0].get("id") == fn.pnames[cp_name]["id"] and i["ops"][1].get("v") == H_SBASE for i in fn.insts()):
+            found, CP = fn, fn.pnames[cp_name]["id"]
+            break
+        # the syllable index may be computed by the caller and handed in: an integer parameter that is itself divided
+        ip = [p["id"] for p in fn.j["params"] if p["ty"] == "i32" and any(i["op"] in ("udiv", "urem") and i["ops"][0].get("id") == p["id"] for i in fn.insts())]
+        if len(ip) == 1:
+            found, SIDX = fn, ip[0]
             break
     if found is None:
-        ck.fail_broken("Hangul decomposition rule: no routine with (dest, cp) parameters that divides cp - SBase found"); return {}
+        ck.fail_broken("Hangul decomposition rule: no routine with a dest parameter that divides cp - SBase (or a syllable index parameter) by TCount/NCount found"); return {}
     fn = found
-    CP, DEST = fn.pnames[cp_name]["id"], fn.pnames[dest_name]["id"]
+    DEST = fn.pnames[dest_name]["id"]
     S = Lin.atom("s")
     facts = [S, Lin.const(H_SCOUNT - 1) - S]
     ties = {}
@@ -854,6 +861,8 @@ def hangul_decomp_rule(ck, fns, callers, report, cp_name="cp", dest_name="dest")
             raise Und("operand")
         if o["id"] == CP:
             return S + Lin.const(H_SBASE)
+        if o["id"] == SIDX:
+            return S
         d = fn.defs.get(o["id"])
         if d is None:
             raise Und("value %s" % o["id"])
@@ -988,13 +997,19 @@ def hangul_decomp_rule(ck, fns, callers, report, cp_name="cp", dest_name="dest")
     for cal in callers:
         for i in cal.insts():
             if i["op"] == "call" and i.get("callee") == fn.name:
-                pos = list(fn.params).index(CP)
+                pos = list(fn.params).index(CP if CP is not None else SIDX)
                 a = i["args"][pos]
                 if a.get("k") != "v":
                     continue
                 results["call_sites"] += 1
                 rs = intervals.reach(cal, a["id"]).get(i["_bb"], [])
-                if not rs or rs[0][0] < H_SBASE or rs[-1][1] > H_SBASE + H_SCOUNT - 1:
+                lo_, hi_ = (H_SBASE, H_SBASE + H_SCOUNT - 1) if CP is not None else (0, H_SCOUNT - 1)
+                if CP is None:
+                    # the index handed in must be cp - SBase of the caller's code point
+                    da = cal.defs.get(a["id"])
+                    if not (da is not None and da["op"] == "sub" and da["ops"][1].get("v") == H_SBASE):
+                        rs = []
+                if not rs or rs[0][0] < lo_ or rs[-1][1] > hi_:
                     report("C17:hangul-decomposition-precondition:%s" % cal.name, "H-hangul-decomposition-inverts-composition", "%s:%s" % (cal.file, i.get("line")),
                            "%s calls %s with a code point in %s: only U+AC00..U+D7A3 are Hangul syllables" % (cal.name, fn.name, ["U+%04X..U+%04X" % x for x in rs] or "an unknown range"))
     results["ties"] = len(ties)
